@@ -775,6 +775,8 @@ def _is(a, b):
         return _is(b, a)
     if isinstance(a, Ref) and isinstance(b, Ref):
         return a.oid == b.oid
+    if type(a).__name__ == "FuncVal" and type(b).__name__ == "FuncVal":
+        return a.node is b.node
     raise Unsupported(f"identity test {a!r} is {b!r}")
 
 
@@ -835,6 +837,10 @@ def py_eq(a, b, heap=None):
                     if len(pa.items) != len(pb.items):
                         return False
                     return zand(*[zbool(py_eq(x, y, heap)) for x, y in zip(pa.items, pb.items)]) if pa.items else True
+                if type(pa).__name__ == "DictP" and type(pb).__name__ == "DictP" and all(isinstance(k, str) for k in list(pa.items) + list(pb.items)):
+                    if set(pa.items) != set(pb.items):
+                        return False
+                    return zand(*[zbool(py_eq(pa.items[k], pb.items[k], heap)) for k in pa.items]) if pa.items else True
             raise Unsupported("object equality")
         return False
     if is_numeric_static(a) and is_numeric_static(b):
@@ -843,6 +849,10 @@ def py_eq(a, b, heap=None):
         if _both_int(a, b):
             return to_int_term(a) == to_int_term(b)
         return to_real_term(a) == to_real_term(b)
+    if type(a).__name__ == "FuncVal" and type(b).__name__ == "FuncVal":
+        return a.node is b.node  # a function object equals only itself
+    if type(a).__name__ == "FuncVal" or type(b).__name__ == "FuncVal":
+        return False
     raise Unsupported(f"equality {a!r} == {b!r}")
 
 
